@@ -260,3 +260,81 @@ PROPS['C18'] = {
                     'under that assumption the event order write . sleep(30ms) . [read . ...] gives >= 30 ms between a data-chunk write and any later port operation (the next message is written by a later call), and read . sleep(100ms) . return gives >= 100 ms between an in-progress report and the return to the caller'],
     'explanation': 'C18 = delay_after_send(m) == Some(30 ms) <=> m is SendData; delay_after_receive(r) == Some(100 ms) <=> r is ReportState(_, PageLoadInProgress | PageShowInProgress); and these are the only sleeps, placed directly after the write resp. after the read, for every message and every reply.',
 }
+
+SIGN_FNS = ['flipdot::sign::Sign::{send_message, send_message_expect_response} (Kani, real Rc<RefCell<dyn SignBus>> plumbing, one exchange, every message x every reply)',
+            'flipdot::sign::Sign::{ensure_unconfigured, send_data, configure, configure_if_needed, send_pages, shut_down, switch_page, show_loaded_page, load_next_page} and verify_response '
+            '(Kani; callees replaced by their verified contracts: #[kani::stub])']
+A_MODULAR = ('modular verification: send_message / send_message_expect_response are proved against their contracts on the real plumbing (c10_unit_*); every longer operation is verified with these two '
+             'replaced by contract stubs, and configure / configure_if_needed / send_pages additionally with ensure_unconfigured / send_data / configure replaced by contract stubs (caller checked against callee contract, not body)')
+A_ATTEMPTS = ('send_data is verified per class of reply script A = 1, 2, 3 (A = first transfer attempt that is not a "clean failed attempt"); the three classes partition all scripts, so together the harnesses are complete over reply scripts')
+A_SHAPES = ('page-list shapes are a bound: quick = {configuration item (16 bytes), no pages, one 48-byte page}; thorough adds {two pages of 16 and 32 bytes} and the monolithic (unstubbed) conversations. '
+            'Contents are symbolic; offsets near the 16-bit limit (pages of 64 KiB) are not reached')
+A_REPLIES = 'reply alphabet per exchange: no answer, any of the 13 states from any 16-bit address, any of the 6 acknowledgements from any address, an unrelated message (Goodbye from any address), an unknown frame (any address/type), a bus error'
+SIGN_UNITS_QUICK = [
+    H('c10_unit_send_message', covers=2), H('c10_unit_send_message_expect_response', covers=3),
+    H('c10_ensure_unconfigured_all_reply_scripts', covers=5),
+    H('c09_send_data_config_attempt1', covers=3), H('c09_send_data_config_attempt2', covers=3), H('c09_send_data_config_attempt3', covers=3),
+    H('c09_send_data_no_pages_attempt1', covers=2),
+    H('c09_send_data_page48_attempt1', covers=2), H('c09_send_data_page48_attempt2', covers=2), H('c09_send_data_page48_attempt3', covers=2),
+    H('c10_configure_composition', covers=2), H('c10_configure_if_needed_composition', covers=3), H('c10_send_pages_composition', covers=3),
+    H('c10_shut_down_all_reply_scripts', covers=3),
+]
+SIGN_SWITCH = [H('c10_show_loaded_page_bounded', covers=2, bounded='at most 5 exchanges before the sign must leave the in-progress/trigger states'),
+               H('c10_load_next_page_bounded', covers=2, bounded='at most 5 exchanges before the sign must leave the in-progress/trigger states')]
+SIGN_THOROUGH = [
+    H('c09_send_data_no_pages_attempt2', covers=2, tier='thorough'), H('c09_send_data_no_pages_attempt3', covers=2, tier='thorough'),
+    H('c09_send_data_pages_16_32_attempt1', covers=2, tier='thorough'), H('c09_send_data_pages_16_32_attempt2', covers=2, tier='thorough'),
+    H('c09_send_data_pages_16_32_attempt3', covers=2, tier='thorough'),
+    H('c10_configure_all_reply_scripts', covers=3, tier='thorough'), H('c10_configure_if_needed_all_reply_scripts', covers=3, tier='thorough'),
+    H('c09_send_pages_empty_list', covers=3, tier='thorough'), H('c09_send_pages_one_page_16', covers=3, tier='thorough'),
+]
+
+for _pid, _expl in [
+    ('C09', 'C09 = the data-phase expectations of the protocol monitor inside the send_data units: the receive request is acknowledged before any data; per item the chunks are SendData(Offset(0), ..), (16), (32).. restarting at each item, chunk i is bytes [16i, min(16i+16, len)) of the item (pointer identity for pages, byte equality for the configuration block == sign_type.to_bytes()), the announced count equals the chunks sent since the request, then the state query; in every retry attempt. The callers pass exactly the page byte images in order (c10_send_pages_composition) / the 16-byte block (c10_configure_composition).'),
+    ('C10', 'C10 = every outgoing message equals what the documented protocol (a phase machine written independently of sign.rs) prescribes for the replies seen so far, and the final outcome (Ok / UnexpectedResponse / Bus error, flip style) is the prescribed one, for every reply script of every operation.'),
+    ('C11', 'C11 = log invariants checked without reference to the protocol monitor: every addressed message carries the own address; after a bus error or a reply the protocol never allows (a reply to a one-way message, anything but the matching acknowledgement from the own address to an operation request) nothing further is sent and the matching error is returned; at most three receive requests per call and each retry directly follows a failed report from the own address; success only if the last state query was answered by the received state from the own address.'),
+]:
+    PROPS[_pid] = {
+        'level': 'proof',
+        'kani': [{'package': 'flipdot', 'harnesses': SIGN_UNITS_QUICK + SIGN_SWITCH + SIGN_THOROUGH, 'timeout': 5400}],
+        'functions': SIGN_FNS,
+        'assumptions': [A_TOOLS, A_DEBUG, A_MODULAR, A_ATTEMPTS, A_SHAPES, A_REPLIES,
+                        'alloc::fmt::format is stubbed (error strings are not part of any property); the polling loop of show_loaded_page / load_next_page is unbounded in the code and is covered by a bounded stand-in only'],
+        'explanation': _expl,
+    }
+
+PROPS['C15'] = {
+    'level': 'other',
+    'kani': [{'package': 'flipdot-core', 'harnesses': [
+        H('c15_read_one_line_tape2_interrupts', covers=1, bounded='stream of 0..=2 bytes, up to 2 Interrupted results, a hard error at any of the first 6 read calls'),
+        H('c15_write_delivers_whole_frame_accept7', covers=2, bounded='15-byte encoding (1 data byte), sink accepting 7 bytes per call, one Interrupted result, a hard error at any of the first 5 write calls'),
+        H('c15_read_one_line_tape4_hard_errors', covers=3, tier='thorough', bounded='stream of 0..=4 bytes, a hard error at any of the first 6 read calls, no Interrupted results'),
+        H('c15_write_delivers_whole_frame_accept4', covers=2, tier='thorough', bounded='15-byte encoding, sink accepting 4 bytes per call, one Interrupted result, a hard error at any of the first 5 write calls'),
+    ], 'timeout': 5400}],
+    'functions': ['flipdot_core::frame::Frame::read (real std BufReader::with_capacity(1)/read_until executed by Kani; Frame::from_bytes replaced by a contract stub that records its argument)',
+                  'flipdot_core::frame::Frame::write (real std write_all executed by Kani)'],
+    'assumptions': [A_TOOLS, A_DEBUG,
+                    'BOUNDED STAND-IN, nothing here is counted as proved: Verus has no specifications for std::io (writing them would be assuming the property) so no unbounded contract is within reach; Kani executes the real std code but only for very short streams',
+                    'the mechanism the harness checks is length-uniform (every request to the reader is for exactly 1 byte; no request is made after the line feed was delivered), which is why short streams are believed representative; that uniformity is argued, not proved',
+                    'back-to-back frames follow by applying the same statement to the remaining stream (stated, not executed)'],
+    'explanation': 'Bounded Kani runs of the real Frame::read / Frame::write on adversarial Read / Write implementations: the reader is asked for one byte at a time and never after the line feed, consumes exactly the line (position == line length), decodes exactly that line once and returns the decoder\'s result; Interrupted reads/writes are retried; a hard error surfaces as FrameError::Io; a short-writing sink receives exactly the encoding with CRLF, in order.',
+}
+
+C08_SEND = ['c08_send_pages_max3000_front_112x16', 'c08_send_pages_max3000_front_98x16', 'c08_send_pages_max3000_side_90x7', 'c08_send_pages_max3000_rear_30x10',
+            'c08_send_pages_max3000_rear_23x10', 'c08_send_pages_max3000_dash_30x7', 'c08_send_pages_horizon_front_160x16', 'c08_send_pages_horizon_front_140x16',
+            'c08_send_pages_horizon_side_96x8', 'c08_send_pages_horizon_rear_48x16', 'c08_send_pages_horizon_dash_40x12']
+PROPS['C08'] = {
+    'level': 'other',
+    'kani': [{'package': 'flipdot', 'harnesses': [H('c08_configure_against_sign_machine', covers=3), H('c08_configure_if_needed_against_sign_machine', covers=2),
+                                                   H('c08_show_and_load_next_against_sign_machine', covers=2),
+                                                   H('c08_transfer_base_case', covers=2), H('c08_transfer_step_is_inductive', covers=3), H('c08_transfer_final_case', covers=2)] + [H(n, covers=2, tier=('quick' if 'dash_30x7' in n else 'thorough')) for n in C08_SEND], 'timeout': 7200}],
+    'tools': [{'kind': 'witness', 'domains': ['e2e'], 'bound': '110000 random walks: 5 addresses x 11 sign types x both flip styles, prior state reached by 0..39 random protocol messages (incl. abandoned transfers, foreign addresses, '
+               'configuration as another / unknown type), page lists of length 0..2, then configure (or configure_if_needed where the property quantifies it) + send_pages + show + load-next + repeated send on the REAL Sign x REAL VirtualSignBus'}],
+    'functions': ['composition of the contracts of flipdot::sign::Sign (C10/C09/C11: the real controller sends exactly what the protocol monitor prescribes) and flipdot_testing::VirtualSign (C13: the real sign step equals spec_step)'],
+    'assumptions': [A_TOOLS, A_DEBUG,
+                    'C08 is not a contract of one function. What is machine-checked here is the COMPOSITION LEMMA over the two contract vocabularies: the protocol monitor of C10, run as a generator of the prescribed messages, against spec_step of C13, from every abstract sign state satisfying the C13 invariant (all 13 states, any counter / buffer length / recorded type / page count), for all 11 sign types, both flip styles and 0..=2 pages of the sign\'s size. It is complete at that level of abstraction',
+                    'the lemma speaks about page COUNTS and LENGTHS; that the bytes arrive identical and in order is the conjunction of C09 (each chunk is the page\'s own bytes at the right offset: pointer identity) and C13 (the buffer is the chunks in arrival order; a stored page is the buffer)',
+                    'the link from the lemma to the real code is the obligations of C09/C10/C11 (controller) and C13 (virtual sign), decided by their own checks; it is not re-established here. The only real-code part of THIS check is the bounded native exploration (never counted as proved)',
+                    'configure_if_needed is quantified as the property states: over prior states that are not ready-to-receive or that record the same sign type'],
+    'explanation': 'Composition lemma (Kani, spec level, complete over abstract prior states) + bounded native end-to-end exploration of the real controller against the real virtual bus.',
+}
